@@ -94,11 +94,6 @@ def table_strings(ctx, recs):
     return cases, impl, model
 
 
-KNOWN = {
-    "c31-flush-raised-CircularDependencyError",
-}
-
-
 def classify(f, rounds):
     if f["kind"] in ("flush-raised", "mutation-raised"):
         return "c31-flush-raised-" + f["exc"]
@@ -106,9 +101,11 @@ def classify(f, rounds):
 
 
 def corpus():
+    """(key, rounds) of the known findings: a finding is identified by its own history; the
+    keys of generated histories (`classify`) are never in the known list"""
     fn = os.path.join(os.path.dirname(os.path.dirname(os.path.dirname(os.path.abspath(__file__)))), "known_findings.d", "C31.json")
     if os.path.exists(fn):
-        return [e["replay"]["rounds"] for e in json.load(open(fn))["findings"] if "rounds" in (e.get("replay") or {})]
+        return [(e["key"], e["replay"]["rounds"]) for e in json.load(open(fn))["findings"] if "rounds" in (e.get("replay") or {})]
     return []
 
 
@@ -126,6 +123,8 @@ def evaluate(ctx, cases, check_tables=True):
         deps += d
         if f is not None and f["kind"] != "inapplicable":
             key = classify(f, rounds)
+            if key and prof.startswith("finding:"):
+                key = prof[len("finding:"):]
             if key:
                 ctx.count("oracle:" + key)
                 ctx.violation(key, {"rounds": rounds[: f["round"] + 1]}, f["detail"])
@@ -149,7 +148,7 @@ def run(ctx, deep=False):
     ctx.trusted.append("SQLite (foreign_keys=ON, constraints checked at statement end) stands for backends with immediate FK checking")
     ctx.assumptions.append("histories follow the discipline documented in harness/lib_graph.py (an application refreshes after deleting rows, does not re-parent pending members of delete-orphan collections, does not reference what it deletes in the same flush): the excluded situations are findings recorded under C30/C35/C39")
     thorough = ctx.tier == "thorough" or deep
-    fixed = [("corpus", r, K.replay_case(r)[1], [], 0, []) for r in corpus()]
+    fixed = [("finding:" + k, r, K.replay_case(r)[1], [], 0, []) for k, r in corpus()]
     if fixed:
         evaluate(ctx, fixed, check_tables=False)
     cases = K.run_random("C31", ctx.seed, "deep" if deep else ctx.tier, 32 if thorough else 8, 500 if thorough else 220,
@@ -173,4 +172,4 @@ def replay(ctx, obj):
         print("   statements:", [p[0] + " " + p[1] for p in r["params"]])
         print("   error:", r["error"])
     print("oracle:", f)
-    return f is not None and classify(f, rounds) == obj["key"]
+    return f is not None and classify(f, rounds) is not None
